@@ -451,6 +451,10 @@ fn g(ops: &[AsOp]) -> Vec<GOp<AsOp>> {
 }
 
 pub fn program_set(set: &str) -> Vec<Program<AsyncFam>> {
+    if let Some(base) = set.strip_suffix("-alt") {
+        // the same programs through spawn_local / AbortHandle::{abort, is_finished}
+        return program_set(base).into_iter().filter(|p| p.threads.iter().flatten().any(|o| matches!(o, GOp::Abort(_) | GOp::IsFinished(_)))).collect();
+    }
     if set == "endings" {
         // ending-oriented subset (C03): parked main task, detached tasks, never-woken futures
         return program_set("quick")
